@@ -6,7 +6,7 @@ CONSTANTS
   YVals <- YValsTiny
   LitPool <- LitTiny
   IdxFields <- IdxBoth
-  QueryLevel = 0
+  QueryLevel = 1
   Emit = TRUE
   MaxHist = 6
 VIEW MCView
